@@ -110,16 +110,19 @@ impl<T> DateTimeMatcher<T> {
         removed
     }
 
-    pub fn batch_remove(&mut self, ids: &HashSet<String>) -> bool {
-        self.any_datetime.batch_remove(ids);
+    /// Remove routes by ids, returns ids of routes really removed
+    pub fn batch_remove(&mut self, ids: &HashSet<String>) -> HashSet<String> {
+        let mut removed = self.any_datetime.batch_remove(ids);
 
         self.condition_groups.retain(|_, matcher| {
-            matcher.batch_remove(ids);
+            removed.extend(matcher.batch_remove(ids));
 
             !matcher.is_empty()
         });
 
-        self.any_datetime.is_empty() && self.condition_groups.is_empty()
+        self.count -= removed.len();
+
+        removed
     }
 
     pub fn match_request(&self, request: &Request) -> Vec<Arc<Route<T>>> {
